@@ -105,17 +105,27 @@ class Ctx:
         self.cov["discharged"] += ok_thms
         if ok_thms != len(theorems) and not any(b["name"] == "audit" for b in self.broken):
             self.broken.append({"kind": "proof", "name": "audit", "detail": f"{len(theorems) - ok_thms} theorems missing from #print axioms output:\n{out[-1500:]}"})
-        # grep project sources
+        # grep the project sources this module transitively imports (another property's work in progress must not fail this one)
         hits = []
-        for root, _, files in os.walk(os.path.join(LEAN, "Slock")):
-            for fn in files:
-                if fn.endswith(".lean"):
-                    txt = open(os.path.join(root, fn)).read()
-                    txt = re.sub(r"/-.*?-/", "", txt, flags=re.S)
-                    for i, l in enumerate(txt.splitlines()):
-                        l2 = l.split("--")[0]
-                        if FORBIDDEN.search(l2):
-                            hits.append(f"{fn}:{i + 1}: {l.strip()}")
+        todo = [m.strip() for m in re.findall(r"^import\s+(\S+)", src, flags=re.M)]
+        seen_mods = set()
+        while todo:
+            mod = todo.pop()
+            if mod in seen_mods or not (mod.startswith("Slock.") or mod.startswith("Driver.")):
+                continue
+            seen_mods.add(mod)
+            fpath = os.path.join(LEAN, *mod.split(".")) + ".lean"
+            if not os.path.exists(fpath):
+                continue
+            raw = open(fpath).read()
+            todo += [m.strip() for m in re.findall(r"^import\s+(\S+)", raw, flags=re.M)]
+            txt = re.sub(r"/-.*?-/", "", raw, flags=re.S)
+            for i, l in enumerate(txt.splitlines()):
+                l2 = l.split("--")[0]
+                if FORBIDDEN.search(l2):
+                    hits.append(f"{os.path.relpath(fpath, LEAN)}:{i + 1}: {l.strip()}")
+        self.cov.setdefault("sources_grepped", 0)
+        self.cov["sources_grepped"] += len(seen_mods)
         if hits:
             self.broken.append({"kind": "proof", "name": "source-grep", "detail": "\n".join(hits[:10])})
         self.cov["trusted_base"] = sorted(axioms_used | set()) + ["Lean 4.33.0 kernel", "go/extract translator", "differential harness"]
